@@ -1,6 +1,7 @@
 package props
 
 import (
+	"bytes"
 	"encoding/json"
 	"fmt"
 	"strings"
@@ -215,6 +216,9 @@ func TestC17(t *testing.T) {
 		// steer the four deciding fields uniformly
 		if rapid.Bool().Draw(t, "emptytopic") {
 			m.TopicName = ""
+		} else if rapid.IntRange(0, 15).Draw(t, "hugetopic") == 0 {
+			// the largest topic names a frame can carry are still well formed
+			m.TopicName = string(bytes.Repeat([]byte{'t'}, rapid.SampledFrom([]int{65533, 65534, 65535}).Draw(t, "hugetopiclen")))
 		}
 		if rapid.Bool().Draw(t, "noalias") {
 			m.TopicAlias = 0
